@@ -161,7 +161,11 @@ def make_symbolic(spec, name, reg, st):
         if tag == 'tuple':
             return tuple(make_symbolic(t, f'{name}_{i}', reg, st) for i, t in enumerate(spec[1:]))
         if tag == 'const':
-            return spec[1]
+            v = spec[1]
+            if isinstance(v, (list, dict)):
+                import copy
+                return copy.deepcopy(v)     # a fresh container per instantiation (paths mutate it)
+            return v
         if tag == 'seq':       # ('seq', elemkind[, length-term-name])
             n = fresh(name + '_len', 'int')
             st.fact(n >= 0)
